@@ -752,7 +752,7 @@ func (r *run) continueAfterCrash(j, k int, base crashdb.Snapshot, L []logEntry, 
 var _ = kit.Register(kit.Prop[Case]{
 	Name: "ImportOrder",
 	Rule: "block tree (trunk 3-8, 1-2 forks of 1-4 blocks at random heights, 0-3 transfers per block, fork blocks often repeat trunk transactions) plus " +
-		"0-3 invalid blocks (bad roots/gas/fees/bloom/nonce/version state, optionally with a re-parented child); the branches are cut into segments, " +
+		"0-3 invalid blocks (bad roots/gas/fees/bloom/nonce/version state, optionally with a re-parented child; a fifth of the schedules run the REAL ucon engine on honestly proposed and voted blocks, with engine-specific invalid kinds: too few votes, foreign seal, and fully voted blocks with a wrong bloom / gas used / transaction root); the branches are cut into segments, " +
 		"reordered, duplicated and offered to InsertChain; invariants after every call and after a clean restart. Non-trivial: a call reorganised the " +
 		"chain or offered an invalid block whose parent was known",
 	Gen: func(t *rapid.T) Case { return genCase(t, false) }, Run: runCase,
